@@ -321,6 +321,11 @@ class CallMixin:
             xv = fresh(parse_type(ty), f"x_{nm}")
             self.assume_wellformed(st, xv)
             env2["_x_" + nm] = xv
+        for g, (gty, _init) in c.ghost_init.items():
+            # the callee's ghost variables in their final state: existential for the caller
+            gv = fresh(parse_type(gty), f"g_{g}")
+            self.assume_wellformed(st, gv)
+            env2[g] = gv
         for d in c.defines:
             st.assume(self.eval_spec(d, st, env2, pre))
         for ens in c.ensures:
